@@ -39,7 +39,11 @@ def _case(draw) -> dict:
     spec = draw(gm.full_spec(ia_weight=3, max_nodes=9, allow_readouts=False))
     state2 = draw(gm.state_for(spec))
     t2 = draw(gm.time_value.filter(lambda t: t != 0.0))
-    return {"spec": spec, "state2": state2, "time2": t2}
+    plain_vars = [n for n, p in decls_of(spec, "variable") if "ia" not in p]
+    plain_pars = [n for n, p in decls_of(spec, "parameter") if "ia" not in p]
+    upd_v = {n: draw(gm.value) for n in plain_vars if draw(st.integers(0, 1)) == 0}
+    upd_p = {n: draw(gm.value) for n in plain_pars if draw(st.integers(0, 2)) == 0}
+    return {"spec": spec, "state2": state2, "time2": t2, "update_variables": upd_v, "update_parameters": upd_p}
 
 
 def strategy(tier: str):
@@ -176,6 +180,48 @@ def examine(case: dict, ctx) -> Outcome:
             if "ia" not in p and (n not in pv or not close(pv[n], p["value"])):
                 out.bad("parameter_values:plain", name=n, got=pv.get(n), want=p["value"])
                 break
+    # 7 new declared initial values / parameter values through the public API, after the queries above:
+    #   assignments must be resolved again from the *new* declared state
+    uv, up = case.get("update_variables") or {}, case.get("update_parameters") or {}
+    if uv or up:
+        import copy
+
+        spec2 = copy.deepcopy(spec)
+        for d in spec2["decls"]:
+            if d[0] == "variable" and d[1] in uv:
+                d[2]["value"] = uv[d[1]]
+            if d[0] == "parameter" and d[1] in up:
+                d[2]["value"] = up[d[1]]
+        ref2 = Ref(spec2)
+        ini2 = ref2.initial()
+        out.classes.append("declared_values_updated_after_queries")
+        try:
+            if uv:
+                m.update_variables(dict(uv))
+            if up:
+                m.update_parameters(dict(up))
+        except Exception as e:  # noqa: BLE001
+            out.bad(f"raises:update:{type(e).__name__}", error=repr(e)[:200])
+            return out
+        ic2 = guard("get_initial_conditions-after-update", lambda: dict(m.get_initial_conditions()))
+        if ic2 is not None:
+            for v in vnames:
+                if not close(ic2[v], ini2[v]):
+                    out.bad("after-update:initial-conditions-not-re-resolved", var=v, got=ic2[v], want=ini2[v], updated=sorted(uv) + sorted(up))
+                    break
+        a3 = guard("get_args-after-update", lambda: m.get_args())
+        if a3 is not None:
+            for n in a3.index:
+                if n != "time" and not close(a3[n], ini2[n]):
+                    out.bad("after-update:values-not-re-resolved", name=n, kind=ref.kind.get(n), got=float(a3[n]), want=ini2[n], updated=sorted(uv) + sorted(up))
+                    break
+        sim2 = guard("Simulator-after-update", lambda: Simulator(m))
+        if sim2 is not None:
+            y02 = dict(sim2.y0)
+            for v in vnames:
+                if not close(y02.get(v), ini2[v]):
+                    out.bad("after-update:simulator-start-not-re-resolved", var=v, got=y02.get(v), want=ini2[v])
+                    break
     return out
 
 
